@@ -91,6 +91,18 @@ def _post(base, recs, stats):
     if _evalseq(rec) != d0:
         viol.append({"key": "overwrite-changes-run", "case": rec.case,
                      "what": "a callback that overwrites the array it receives changes the evaluations or the result"})
+    # ... and the overwriting callback itself keeps receiving the true best points
+    for v in oracles.c20(rec):
+        v["case"] = rec.case
+        viol.append(v)
+    got = [q for q in rec.calls if q["fid"] == "cb"]
+    for a, b in zip(got, cbs0):
+        if not e1.same_bits(a["x"], b["x"]) or not (a["val"] is None and b["val"] is None
+                                                     or e1.feq(a["val"], b["val"])):
+            viol.append({"key": "overwrite-seen-by-later-callback", "case": rec.case,
+                         "what": f"callback call {a['k']} of an overwriting callback received {a['x'].tolist()} "
+                                 f"whereas a passive callback receives {b['x'].tolist()}"})
+            break
     # keep: arrays handed out at different calls must be distinct objects with stable content
     c = dict(base)
     c["callback"] = dict(base["callback"], behav="keep")
